@@ -673,7 +673,9 @@ func genScript(cfg *RunCfg, st *Stats, window bool) []string {
 		switch k := r.Intn(10); {
 		case k < 2:
 			s = append([]string{"cfg=take"}, s...)
-		case k == 2:
+		case k == 2 && !strings.Contains(strings.Join(s, " "), "stallw"):
+			// (a write held back for longer than the context age fails by its deadline: the age
+			// is no longer a configuration that changes nothing)
 			s = append([]string{"cfg=age"}, s...)
 		}
 	}
